@@ -145,7 +145,13 @@ func runC14(c *Ctx) {
 			}
 		}
 	}
-	R.Check(sig != nil && usesSig(read) && !inRow, "C14.R2", "Read:header-only-between-rows", c.atFn(read), "the COPY stream header (signature) is recognised and skipped only at a row boundary, never inside a row where the same bytes would be user data", "the signature is consulted outside the field loop only", "the stream signature is consulted inside the field loop (or by a helper called from it): value bytes that happen to equal the signature are dropped and the rest of the stream is decoded from a shifted offset")
+	consulted := usesSig(read)
+	for _, ci := range core.Calls(read) {
+		if callee := core.StaticCallee(ci); callee != nil && c.P.InPkg(callee, "wire") && usesSig(callee) {
+			consulted = true
+		}
+	}
+	R.Check(sig != nil && consulted && !inRow, "C14.R2", "Read:header-only-between-rows", c.atFn(read), "the COPY stream header (signature) is recognised and skipped only at a row boundary, never inside a row where the same bytes would be user data", "the signature is consulted outside the field loop only", sprintf("signature consulted by Read or a helper: %v; consulted inside the field loop (or by a helper called from it): %v - inside a row, value bytes that happen to equal the signature would be dropped and the rest of the stream decoded from a shifted offset", consulted, inRow))
 
 	// ---------- R5: row assembly
 	var loop *core.Loop
@@ -161,8 +167,16 @@ func runC14(c *Ctx) {
 				continue
 			}
 			continues := loop.Body[b.Succs[0]] && !loop.Body[b.Succs[1]]
-			if cmp, ok := iff.Cond.(*ssa.BinOp); ok && continues && cmp.Op == token.LSS && core.StripConv(cmp.Y) == fields && isInduction(cmp.X) {
-				okBound = true
+			if cmp, ok := iff.Cond.(*ssa.BinOp); ok && continues && cmp.Op == token.LSS && isInduction(cmp.X) {
+				if core.StripConv(cmp.Y) == fields {
+					okBound = true
+				}
+				// len(scanners), which the equality guard (R1) makes the same number
+				if x, ok := core.IsLenOf(cmp.Y); ok && eq {
+					if _, p := pathOf(x); p == ".scanners" {
+						okBound = true
+					}
+				}
 			}
 		}
 		R.Check(okBound, "C14.R5", "Read:loop-over-announced-fields", c.at(loop.Header.Instrs[0]), "the field loop runs once per announced field", "induction variable < field count", "the field loop's bound is not the announced field count")
